@@ -77,7 +77,10 @@ def run_impl_parallel(modname, eng, cases):
 def shrink_failure(modname, eng, case, kind):
   """Greedy shrink keeping a P_impl failure of the same kind."""
   cur = case
+  deadline = time.time() + 20
   for _ in range(200):
+    if time.time() > deadline:
+      break
     progressed = False
     for cand in eng.shrink(cur):
       try:
